@@ -17,7 +17,11 @@ compares the token after `#` with the directive names), entered with the cursor 
     facts known about its token arguments, and its paths are folded into outcomes "diagnostic at the k-th successor of
     parameter i / *rest = the k-th successor of parameter i, which begins a line / returns a new token"; an outcome is
     instantiated on the caller's tokens.  Loop-free helpers are inlined, helpers that neither reach a diagnostic nor move a
-    caller's cursor are cut (result unknown), recursion is cut.
+    caller's cursor are cut (result unknown), recursion is cut;
+  * a loop that cannot touch anything the rule observes is not iterated (Lines.neutral_loop: every store in it goes to a variable
+    the loop declares or to a token field that is no position / line-structure field -- `t->ty = ...` --, every call is one the
+    exploration cuts anyway and gets no address to write through, it raises no diagnostic and does not leave the function):
+    iterating it would only multiply the paths by what it reads.  Any other loop is followed as before.
 
 A site is (function of the call, message or record field, directive name the iteration matched).  A site is a violation when, on
 EVERY explored path that reaches it with a token of the directive's sequence, that token is behind the directive's line.  (Cuts and summaries only add paths; a site that is reached with a token on the line on some path
@@ -39,6 +43,7 @@ MAX_PATHS_MAIN = 6000
 BUDGET_S = 22.0
 LOOP_LIMIT = 2
 POS_FIELDS = ('loc', 'line_no', 'file')
+PURE_MODELS = ('memcmp', 'strcmp', 'strncmp', 'strlen', '__builtin_expect')      # modelled library functions that store nothing
 
 
 def posof(o):
@@ -63,6 +68,12 @@ def _base_of(t):
     return None
 
 
+def _rec_of(n):
+    """the record a member is selected from, given the base expression of the MemberExpr"""
+    t = n.dtype or n.type
+    return _base_of(t) or (t or '').replace('const ', '').replace('struct ', '').strip()
+
+
 def _is_cursor_type(t):
     return (t or '').replace('const ', '').replace('struct ', '').replace(' ', '') == 'Token**'
 
@@ -82,11 +93,14 @@ class DirInterp(CutInterp):
         self.headcut = headcut
         self.posfields = posfields
         self.eof_kind = cfg.get('eof_kind')
+        self.neutral = cfg.get('neutral_loop')
 
     def exec_loop(self, s, _unused, cond, inc, body, env):
         st = self._st()
         if self.headcut and not st['cut_done'] and self.ctx.depth == 1:
             return self._cut_loop(s, cond, inc, body, env, do=False)
+        if self._skip_neutral(s, env):
+            return
         if cond is None or cond.strip_all().kind in ('IntegerLiteral', 'CXXBoolLiteralExpr'):
             # `for (;;)` / `while (1)`: left by a break the body decides; as many generic iterations as any other loop
             if cond is not None and not self.truth(self.eval(cond, env), cond):
@@ -107,7 +121,13 @@ class DirInterp(CutInterp):
         st = self._st()
         if self.headcut and not st['cut_done'] and self.ctx.depth == 1:
             return self._cut_loop(s, s.inner[1], None, s.inner[0], env, do=True)
+        if self._skip_neutral(s, env):
+            return
         return Interp.exec_do(self, s, env)
+
+    def _skip_neutral(self, s, env):
+        """contract of a loop that stores no position, moves no cursor and reports nothing: no effect on what is observed"""
+        return self.neutral is not None and bool(self.neutral(s))
 
     def copy_obj(self, o):
         """a whole-struct copy of a token has the position (file, line, loc) of the token it is copied from"""
@@ -212,9 +232,75 @@ class Lines:
             rt = (d.type or '').split('(', 1)[0].strip()
             if len(pt) == 2 and _base_of(pt[0]) == 'Token' and pt[1].replace('const ', '').replace(' ', '') == 'char*' and rt in ('bool', '_Bool', 'int'):
                 self.spelling.add(n)
+        # token fields a position or the line structure is read from: those the diagnostic functions read, the links to other tokens / files,
+        # and the ones this analysis keeps facts about
+        self.protected = set(POS_FIELDS) | set(SPEC_FIELDS) | {'next'}
+        for (f, t, _) in u.records.get('Token', []):
+            if _base_of(t) in ('Token', 'File') or f in ('filename', 'line_delta', 'len'):
+                self.protected.add(f)
+        for f in self.diag | {'verror_at'}:
+            for n in (tu.functions[f].walk() if f in tu.functions else ()):
+                if n.kind == 'MemberExpr' and n.inner and _rec_of(n.inner[0]) == 'Token':
+                    self.protected.add(n.name)
+        self.neutral = {}
         self.memo = {}
         self.stack = []
         self.nsumm = 0
+
+    def neutral_loop(self, s):
+        """True when the loop statement `s` cannot have an effect on anything this analysis observes, whatever it iterates over (see module docstring):
+        it is not iterated.  A variable declared outside the loop must not be assigned in it (a cursor the loop moves is what the rule is about).
+        Decided on the statement (and the loop-free helpers it calls) alone; anything not recognised makes the loop an ordinary one."""
+        r = self.neutral.get(s.id)
+        if r is None:
+            r = self.neutral[s.id] = (s, self._neutral(s, (), False))
+        return r[1]
+
+    def _neutral(self, region, seen, is_fn):
+        """`region`: a loop statement, or (is_fn) a whole function called from such a loop"""
+        own = set(n.id for n in region.walk() if n.kind in ('VarDecl', 'ParmVarDecl') and n.id)
+        for n in region.walk():
+            k = n.kind
+            if k in ('GotoStmt', 'IndirectGotoStmt', 'LabelStmt', 'AsmStmt', 'GCCAsmStmt', 'StmtExpr', 'VAArgExpr') or (k == 'ReturnStmt' and not is_fn):
+                return False
+            if k == 'VarDecl' and ((n.dtype or n.type or '').count('*') > 1 or n.d.get('storageClass')):
+                return False
+            if k == 'UnaryOperator' and n.opcode == '&':
+                return False          # an address leaves the expression: a store through it would not be seen here
+            if k == 'CallExpr':
+                c = n.callee()
+                if not c or c in self.diag or c in NORETURN or c in self.spelling:
+                    return False
+                if c in _BUILTIN_MODELS:
+                    if c not in PURE_MODELS:
+                        return False
+                elif c in self.u.functions:
+                    kd = self.kind.get(c)
+                    if kd == 'inline':          # a loop-free helper: the same conditions hold for its body
+                        if c in seen or len(seen) > 4 or not self._neutral(self.u.functions[c], seen + (c,), True):
+                            return False
+                    elif kd != 'cut':
+                        return False
+                for a in n.args():
+                    t = (a.dtype or a.type or '').replace('const ', '')
+                    if t.count('*') > 1 or '(' in t:
+                        return False
+                continue
+            tgt = None
+            if k in ('BinaryOperator', 'CompoundAssignOperator') and (n.opcode == '=' or (n.opcode or '').endswith('=') and n.opcode not in ('==', '!=', '<=', '>=')):
+                tgt = n.inner[0]
+            elif k == 'UnaryOperator' and n.opcode in ('++', '--'):
+                tgt = n.inner[0]
+            if tgt is None:
+                continue
+            t = tgt.strip()
+            if t.kind == 'DeclRefExpr' and t.ref_id in own:
+                continue
+            if t.kind == 'MemberExpr' and t.inner and _rec_of(t.inner[0]) == 'Token' and t.name not in self.protected and ('Token', t.name) not in self.posfields \
+                    and not (tgt.dtype or tgt.type or '').rstrip().endswith(']'):
+                continue
+            return False
+        return True
 
     def _loopfree(self, f, seen):
         u = self.u
@@ -244,7 +330,7 @@ class Lines:
                 cuts[n] = {'self': self.h_self, 'inline': self.h_inline, 'summ': self.h_summ, 'cut': self.h_cut}[k]
         for n in self.spelling:
             cuts[n] = self.h_equal
-        cfg = {'inline_other_units': False, 'cut': cuts, 'loop_limit': LOOP_LIMIT, 'assume': assume, 'eof_kind': self.EOF}
+        cfg = {'inline_other_units': False, 'cut': cuts, 'loop_limit': LOOP_LIMIT, 'assume': assume, 'eof_kind': self.EOF, 'neutral_loop': self.neutral_loop}
         return DirInterp(self.P, self.u, cfg, headcut, self.posfields)
 
     def _check_budget(self):
